@@ -313,6 +313,25 @@ static void s11(void) {
     finish(h, c);
 }
 
+/* S12: a far-future task U is scheduled first (so the inner timed queue is non-empty in most interleavings), then a fresh
+ * task T is scheduled and cancelled at once - in many schedules while T still sits in the cross-thread hand-over queue -
+ * and the scheduler is released.  T and U must each be invoked exactly once, and U only by the shutdown (added after a
+ * seeded change that made the cancel of a pulled-out task remove the root of the timed heap instead) */
+static void s12(void) {
+    setup();
+    uint64_t now = 0;
+    aws_high_res_clock_get_ticks(&now);
+    task_time[2] = now + 3600ull * 1000000000ull;
+    aws_thread_scheduler_schedule_future(ts, &task[2], task_time[2]);
+    pthread_mutex_lock(&hm); /* a point at which the scheduler thread may take U over */
+    pthread_mutex_unlock(&hm);
+    aws_thread_scheduler_schedule_now(ts, &task[0]);
+    aws_thread_scheduler_cancel_task(ts, &task[0]);
+    cancel_done_seq[0] = vs_seq_now();
+    int h[NT] = {1, 0, 1}, c[NT] = {1, 0, 0};
+    finish(h, c);
+}
+
 static uint64_t user_digest(void) {
     uint64_t h = 1469598103934665603ull;
     for (int i = 0; i < NT; ++i) {
@@ -337,6 +356,7 @@ int main(int argc, char **argv) {
         {.name = "S9-task-cancels-task", .run = s9, .bound_quick = 2, .bound_thorough = 3, .digest = user_digest},
         {.name = "S10-two-owners-release", .run = s10, .bound_quick = 2, .bound_thorough = 3, .digest = user_digest},
         {.name = "S11-timed-task-cancelled", .run = s11, .bound_quick = 3, .bound_thorough = 4, .digest = user_digest},
+        {.name = "S12-cancel-pulled-task-with-timed-queue", .run = s12, .bound_quick = 2, .bound_thorough = 3, .digest = user_digest},
         {.name = "S7-three-clients", .run = s7, .bound_quick = -1, .bound_thorough = 1, .digest = user_digest},
     };
     return vsx_main(sc, (int)(sizeof(sc) / sizeof(sc[0])));
